@@ -22,8 +22,8 @@ fn gen_w1(prop: &str, seed: u64, _tier: Tier, _idx: u64) -> Scenario {
     Scenario::W1(crate::w1gen::generate(prop, seed))
 }
 
-fn gen_w3(prop: &str, seed: u64, _tier: Tier, _idx: u64) -> Scenario {
-    Scenario::W3(crate::w3gen::generate(prop, seed))
+fn gen_w3(prop: &str, seed: u64, tier: Tier, _idx: u64) -> Scenario {
+    Scenario::W3(crate::w3gen::generate_t(prop, seed, matches!(tier, Tier::Thorough)))
 }
 /// mixes the direct world (W1/W2) with the environment world (W3); the share is fixed per property
 fn gen_mixed(prop: &str, seed: u64, tier: Tier, idx: u64) -> Scenario {
